@@ -12,11 +12,15 @@ namespace XzVerif.Suffix
     non-empty and not ending in the directory separator. Every path of an existing non-directory file is like this. -/
 def GoodBase (b : Name) : Prop := b ≠ [] ∧ b.getLast? ≠ some slash
 
+instance (b : Name) : Decidable (GoodBase b) := by unfold GoodBase; infer_instance
+
 /-- What `suffix_set()` lets through: a custom suffix is never empty and contains no '/'. -/
 def ValidSuffix (custom : Option Name) : Prop := ∀ c, custom = some c → c ≠ [] ∧ slash ∉ c
 
 /-- `--format=raw` has to be given on both sides or on neither (raw data cannot be auto-detected). -/
 def RawConsistent (fmt dfmt : Format) : Prop := fmt = .raw ↔ dfmt = .raw
+
+instance (a b : Format) : Decidable (RawConsistent a b) := by unfold RawConsistent; infer_instance
 
 /-- When decompressing `t` (made from `name`), a built-in suffix — tested in table order BEFORE the custom suffix —
     matches `t` and cuts it somewhere else than at `name`, or cuts at `name` but appends a replacement (".tar"). -/
@@ -198,10 +202,10 @@ theorem firstMatch_of_match {t e u : Name} (he : (e, u) ∈ uncompTable) (hm : t
 
 /-! ## `compressed_name` -/
 
-theorem compressedNameT_some {sufs : List Name} {custom : Option Name} {name t : Name}
-    (h : compressedNameT sufs custom name = some t) :
+theorem compressedNameT_some {sufs : List Name} {dflt custom : Option Name} {name t : Name}
+    (h : compressedNameT sufs dflt custom name = some t) :
     (∀ s ∈ sufs, testSuffix s name = 0) ∧ (∀ c, custom = some c → testSuffix c name = 0) ∧
-    ∃ s, t = name ++ s ∧ (custom = some s ∨ (custom = none ∧ sufs.head? = some s)) := by
+    ∃ s, t = name ++ s ∧ (custom = some s ∨ (custom = none ∧ dflt = some s)) := by
   unfold compressedNameT at h
   by_cases h1 : (sufs.any fun s => testSuffix s name != 0) = true
   · rw [if_pos h1] at h; cases h
@@ -223,7 +227,7 @@ theorem compressedNameT_some {sufs : List Name} {custom : Option Name} {name t :
           simp at h
           exact ⟨c, h.symm, Or.inl rfl⟩
         | none =>
-          cases hh : sufs.head? with
+          cases hh : dflt with
           | none => simp [hh] at h
           | some s =>
             simp [hh] at h
